@@ -214,14 +214,30 @@ def run(tier):
     # start-up race: record the server-side __setstate__ lines once, then pause at selected ones
     from vlib import lpi
     race = []
-    for k in ((range(0, 60, 2)) if thorough else (3, 9, 15, 21, 27, 33)):
-        race.append(dict(children=[r.choice(['coop', 'idle-persistent'])], how=r.choice(['terminate', 'sigterm']), startup_race=True, k=k))
+    # reference trace of the server's side of the hand-shake (lines of RemoteWorker.__setstate__ and its callees)
+    rec_cfg = lpi.cfg('RemoteWorker', 'record', events='line', arm_func='__setstate__', end=['__setstate__'])
+    rec_cfg['arm']['state_key'] = '_from_remote_parent'
+    rres = run_case('checks.c12:case', dict(children=['coop'], how='terminate'), os.path.join(wd, 'rec'), timeout=120, inject=rec_cfg)
+    import glob
+    import json
+    trace = []
+    for f in glob.glob(os.path.join(wd, 'rec', 'trace.*.jsonl')):
+        t = [json.loads(l) for l in open(f) if l.strip()]
+        if len(t) > len(trace):
+            trace = t
+    own_lines = [e for e in trace if e.get('func') == '__setstate__' and e.get('kind') == 'line']
+    chk.count('handshake_lines_recorded', len(own_lines))
+    cleanup(os.path.join(wd, 'rec'))
+    pick = own_lines if thorough else own_lines[::3] + own_lines[-4:]
+    for e in pick:
+        for how in (('terminate', 'sigterm') if thorough else (r.choice(['terminate', 'sigterm']),)):
+            race.append(dict(children=[r.choice(['coop', 'idle-persistent'])], how=how, startup_race=True, k=e['i'], at=lpi.at_of(trace, e['i']), line=e['line']))
 
     def one(ij):
         i, sp = ij
         inject = None
         if sp.get('startup_race'):
-            inject = lpi.cfg('RemoteWorker', 'act', events='line', k=sp['k'], action='pause', arm_func='__setstate__', end=['__setstate__'], pause_s=6)
+            inject = lpi.cfg('RemoteWorker', 'act', events='line', k=sp['k'], action='pause', arm_func='__setstate__', end=['__setstate__'], pause_s=6, at=sp.get('at'))
             inject['skip_arms'] = sum(1 for c in sp['children'] if c in ('coop', 'swallow', 'finished'))
             inject['arm']['state_key'] = '_from_remote_parent'
         res = run_case('checks.c12:case', sp, os.path.join(wd, 'c%d' % i), timeout=300, inject=inject)
@@ -229,7 +245,7 @@ def run(tier):
         return sp, res
 
     for sp, res in pmap(one, list(enumerate(jobs + race)), 6):
-        chk.case((tuple(sp['children']), sp['how'], sp.get('startup_race', False), sp.get('k')))
+        chk.case((tuple(sp['children']), sp['how'], sp.get('startup_race', False), sp.get('line'), sp.get('k')))
         chk.count('configurations')
         chk.count('stop_by_' + sp['how'])
         if sp.get('startup_race'):
